@@ -1,6 +1,7 @@
 import IrVerif.Drive.Util
 import IrVerif.Model.Pack
 import IrVerif.Model.TensorRepr
+import IrVerif.Model.Strided
 open Lean IrVerif.Drive
 namespace IrVerif.Drive.Pack
 open IrVerif.Pack IrVerif.TensorRepr
@@ -54,8 +55,16 @@ def protoOfJson (j : Json) : Except String Proto := do
            uint64Data := ← getNatsD j "u64", floatData := ← getNatsD j "f32",
            doubleData := ← getNatsD j "f64", external := ext }
 
+/-- a strided array: shape, byte strides, byte offset, storage bytes, itemsize, byte order -/
+def arrOfJson (j : Json) : Except String IrVerif.Strided.Arr := do
+  return { shape := ← getNats j "dims", strides := ← getInts j "strides", offset := ← getNat j "offset",
+           storage := ← getNats j "storage", itemsize := ← getNat j "itemsize",
+           bigEndian := ← getBool j "be", complex := ← getBool j "cplx" }
+
 partial def repOfJson (j : Json) : Except String Rep := do
   match ← getStr j "k" with
+  | "strided" => return (← arrOfJson j).toRep (← getDType j "d") (← getBool j "nd")
+  | "tstrided" => return (← arrOfJson j).toTorchRep (← getDType j "d")
   | "array" => return .array (← getDType j "d") (← getNats j "dims") (← getNats j "elems")
   | "arraymem" =>
     return .arrayMem (← getDType j "d") (← getNats j "dims") (← getNats j "mem") (← getBool j "be")
@@ -167,6 +176,15 @@ def handle : Handler := fun m j =>
   | "pack.elembits" => some do
       let bits := elemStream (← getNat j "bw") (← getNats j "xs") (← getNat j "nb")
       return obj [("r", Json.arr (bits.map (fun (b : Bool) => toJson b)).toArray)]
+  | "strided.obs" => some do
+      let r ← j.getObjVal? "repr"
+      let a ← arrOfJson r
+      let d ← getDType r "d"
+      let nd := (getBool r "nd").toOption.getD false
+      let hyp := a.inBounds && a.storage.all (· < 256) && d.bitwidth.isSome && a.itemsize == npItemBytes d
+      return obj [("tobytes", rJ natsJ (a.tobytes d nd)), ("torch_tobytes", rJ natsJ (a.torchTobytes d)),
+                  ("units", natsJ a.units), ("in_bounds", toJson a.inBounds), ("hyp", toJson hyp),
+                  ("count", toJson a.items.length)]
   | "trepr.packle" => some do
       return obj [("r", natsJ (packLE (← getNat j "bw") (← getNats j "xs")))]
   | _ => none
